@@ -213,17 +213,27 @@ theorem l2d_retell_same (c : Cfg L) (s : State V L) (p : Nat) (v : V) (h : aget 
    retell_same_noop c s p v h⟩
 
 /-- every in-bounds point a committing `ask` returns is pending afterwards, and stays pending along every continuation that
-neither tells it nor discards (oracles proposing fresh points; `L2D.Ex.nocommit_ask_can_unpend` without that). -/
-theorem l2d_asked_pending_until_told (c : Cfg L) (cands : Oracle V L) (s : State V L) (hinv : Inv1 c s)
-    (hc : CandsFresh cands) (n : Nat) {s' : State V L} {ret : List (Nat × L)}
+neither tells it nor discards - ANY state, ANY oracles (`KeepsPendingAny`: an `ask` of the continuation is any `ask`).  Before
+the repair of the non-committing `ask` (e806eb2) this needed `Inv1`, `CandsFresh` for this `ask` and for every `ask` of the
+continuation (`KeepsPending`); `L2D.Ex.nocommit_ask_keeps_prior_pending` is the former counterexample. -/
+theorem l2d_asked_pending_until_told (c : Cfg L) (cands : Oracle V L) (s : State V L)
+    (n : Nat) {s' : State V L} {ret : List (Nat × L)}
     (h : ask c cands s n true = (s', .ok ret)) :
     ∀ q ∈ keys ret, c.inB q = true → q ∈ s'.pending ∧
-      ∀ ops : List (Op V L), (∀ op ∈ ops, KeepsPending q op) → q ∈ (run c s' ops).pending := by
+      ∀ ops : List (Op V L), (∀ op ∈ ops, KeepsPendingAny q op) → q ∈ (run c s' ops).pending := by
   intro q hq hb
   have h1 := ask_commit_marks_pending c cands s n h q hq hb
-  have hinv' : Inv1 c s' := by
-    have := inv1_ask hinv cands hc n true; rw [h] at this; exact this
-  exact ⟨h1, fun ops hops => pending_stays_run hinv' h1 ops hops⟩
+  exact ⟨h1, fun ops hops => pending_stays_run_any h1 ops hops⟩
+
+/-- the earlier form (fresh oracles in the continuation) is a special case -/
+theorem l2d_asked_pending_until_told_fresh (c : Cfg L) (cands : Oracle V L) (s : State V L)
+    (n : Nat) {s' : State V L} {ret : List (Nat × L)}
+    (h : ask c cands s n true = (s', .ok ret)) :
+    ∀ q ∈ keys ret, c.inB q = true → q ∈ s'.pending ∧
+      ∀ ops : List (Op V L), (∀ op ∈ ops, KeepsPending q op) → q ∈ (run c s' ops).pending := fun q hq hb =>
+  ⟨(l2d_asked_pending_until_told c cands s n h q hq hb).1, fun ops hops =>
+    (l2d_asked_pending_until_told c cands s n h q hq hb).2 ops
+      (fun op hop => keepsPendingAny_of_keepsPending (hops op hop))⟩
 
 /-- `remove_unfinished` empties the pending set, keeps the data, and queues every corner without a value at `inf`. -/
 theorem l2d_removeUnfinished (c : Cfg L) (s : State V L) :
